@@ -125,7 +125,7 @@ package virtual
 // that is not a modification in the sense of the change counter's callers:
 // touches() is not affected.
 //@ func (*inMemoryPrepopulatedDirectory).getContents
-//@   props C13
+//@   props C13 C17
 //@   modifies i.initialContentsFetcher, clocknow
 //@   havoc F:pkg/filesystem/virtual.inMemoryDirectoryContents.* F:pkg/filesystem/virtual.inMemoryDirectoryEntry.* MD:* MV:* MC
 //@   trustframe -- initial population of a lazily loaded directory is not counted as a modification; objects created for it are fresh
@@ -188,6 +188,48 @@ package virtual
 //@   at call attach#2 assert moved-child-appears-under-the-new-name: arg2 == newName && arg3 == normalizedNewName && arg4.directory == oldEntry.child.directory && arg4.leaf == oldEntry.child.leaf && arg4.kind == oldEntry.child.kind
 //@   at call attach#3 assert moved-child-appears-under-the-new-name: arg2 == newName && arg3 == normalizedNewName && arg4.directory == oldEntry.child.directory && arg4.leaf == oldEntry.child.leaf && arg4.kind == oldEntry.child.kind
 //@   ensures change-info-reports-the-final-counters: r2 == StatusOK ==> r0.After == oldContents.changeID && r1.After == newContents.changeID
+
+// ---------------------------------------------------------------------------
+// Input files backed by the Content Addressable Storage are immutable (C17)
+//
+// Every attempt to open them for writing, to truncate them or to change their
+// size is refused; a write that slips through never returns.
+
+//@ pred wantsMoreThanRead(m ShareMask) := m != 0 && m != 1
+//@ pred setsSize(a *Attributes) := a.fieldsPresent & AttributesMaskSizeBytes != 0
+
+//@ func (*regularBlobAccessCASFile).VirtualOpenSelf
+//@   props C17
+//@   requires options != nil
+//@   ensures write-or-truncate-open-is-refused: wantsMoreThanRead(shareAccess) || options.Truncate ==> r0 == StatusErrAccess
+//@   ensures only-plain-reads-succeed: r0 == StatusOK ==> !wantsMoreThanRead(shareAccess) && !options.Truncate
+//@ func (*executableBlobAccessCASFile).VirtualOpenSelf
+//@   props C17
+//@   requires options != nil
+//@   ensures write-or-truncate-open-is-refused: wantsMoreThanRead(shareAccess) || options.Truncate ==> r0 == StatusErrAccess
+//@   ensures only-plain-reads-succeed: r0 == StatusOK ==> !wantsMoreThanRead(shareAccess) && !options.Truncate
+//@ func (blobAccessCASFile).virtualSetAttributesCommon
+//@   props C17
+//@   requires in != nil
+//@   pure
+//@   ensures size-change-is-refused: old(setsSize(in)) ==> r0 != StatusOK
+//@ func (*regularBlobAccessCASFile).VirtualSetAttributes
+//@   props C17
+//@   requires in != nil
+//@   ensures size-change-is-refused: old(setsSize(in)) ==> r0 != StatusOK
+//@ func (*executableBlobAccessCASFile).VirtualSetAttributes
+//@   props C17
+//@   requires in != nil
+//@   ensures size-change-is-refused: old(setsSize(in)) ==> r0 != StatusOK
+//@ func (blobAccessCASFile).VirtualWrite
+//@   props C17
+//@   ensures a-write-never-returns: false
+//@ func (blobAccessCASFile).VirtualAllocate
+//@   props C17
+//@   ensures allocation-is-refused: r0 != StatusOK
+
+// A directory whose lazy load failed stays unloaded: the next access retries
+// instead of presenting an empty directory (see getContents above, C13/C17).
 
 // ---------------------------------------------------------------------------
 // Pool-backed files live exactly as long as referenced (C16)
